@@ -58,6 +58,7 @@ pub fn c14_c15_pool(m: &mut Mon, ctx: &StepCtx, stats: &mut Stats, out: &mut Vec
     }
     let paid_sum: u128 = paid.iter().map(|p| p.1).sum();
     m.delivered += (bank_post + paid_sum).saturating_sub(bank_pre);
+    m.undistributed += (bank_post + paid_sum).saturating_sub(bank_pre);
     if bank_post > bank_pre && pre.state.total_balance.is_zero() {
         stats.probe("c14_delivery_while_nobody_holds_bsei");
     }
@@ -75,6 +76,20 @@ pub fn c14_c15_pool(m: &mut Mon, ctx: &StepCtx, stats: &mut Stats, out: &mut Vec
         m.index_updates += 1;
         stats.check("c15_index_update");
         let delta = g1 - g0;
+        // the holders' total accrual grows by delta x total balance: never more than the coins
+        // that actually reached the contract since the previous distribution (the bound uses
+        // the bank, not the contract's own prev_reward_balance record)
+        stats.check("c15_distribution_bounded_by_delivery");
+        let grow18 = Uint256::from(delta) * Uint256::from(pre.state.total_balance.u128());
+        let have18 = Uint256::from(m.undistributed) * one256();
+        if grow18 > have18 {
+            let msg = format!("index rose by {}e-18 over a total balance of {} (= {}e-18 reward) but only {} reward coins reached the contract since the previous distribution", delta, pre.state.total_balance, grow18, m.undistributed);
+            viol(out, "C15", "accrual_bounded_by_rewards_delivered", ctx.idx, "reward.UpdateGlobalIndex:over_distribution", msg.clone());
+            if ctx.out.map(|o| o.calls.iter().any(|c| c.ok && c.is_exec(HUB, "update_global_index"))).unwrap_or(false) {
+                viol(out, "C19", "holders_accrual_grows_by_delivered", ctx.idx, "hub.UpdateGlobalIndex:over_distribution", msg);
+            }
+        }
+        m.undistributed = 0;
         for h in &pre.holders {
             if !h.balance.is_zero() {
                 *m.accr.entry(h.address.clone()).or_insert_with(Uint256::zero) += Uint256::from(delta) * Uint256::from(h.balance.u128());
@@ -430,6 +445,27 @@ pub fn c19_update_index(m: &mut Mon, ctx: &StepCtx, stats: &mut Stats, out: &mut
                 let zero_send = failing.sender == DISPATCHER && matches!(&failing.msg, MsgRec::BankSend { coins, .. } if coins.iter().all(|x| x.1 == 0));
                 let sig = if zero_send { "hub.UpdateGlobalIndex:must_succeed:dispatcher_zero_send" } else { "hub.UpdateGlobalIndex:must_succeed:registry_triggered" };
                 viol(out, "C19", "update_global_index_executes_when_bonded", ctx.idx, sig, format!("{:?} failed inside the UpdateGlobalIndex it triggers ({} booked): {}", ctx.top(), bonded, o.err.clone().unwrap_or_default()));
+            }
+        }
+    }
+    // 6c. C17: "dispatch executes for every balance and every keeper rate": a transaction that
+    //     dies inside DispatchRewards (its own handler or anything it dispatches) for a reason
+    //     other than the zero-amount transfer reported by no_zero_transfer
+    if !o.ok && !ctx.abort_injected && both_ok && !ctx.hub_paused_pre() && o.err_kind != Some(ErrKind::Harness) {
+        if let Some(at) = o.err_at {
+            let disp = o.calls.iter().filter(|c| c.sender == HUB && c.is_exec(DISPATCHER, "dispatch_rewards")).find(|c| at == c.idx || o.subtree(c.idx).iter().any(|k| k.idx == at));
+            let bonded = pre.raw.as_ref().map(|r| r.total_bond_bsei_amount.u128() + r.total_bond_stsei_amount.u128()).unwrap_or(0);
+            let wired = ctx.pre.dispatcher.as_ref().map(|d| d.hub_contract == HUB && d.bsei_reward_contract == REWARD && d.swap_denoms.contains(&d.stsei_reward_denom) && d.swap_denoms.contains(&d.bsei_reward_denom)).unwrap_or(false)
+                && pre.config.validators_registry_contract.as_deref() == Some(REGISTRY)
+                && pre.config.reward_dispatcher_contract.as_deref() == Some(DISPATCHER)
+                && ctx.pre.reward.as_ref().map(|r| r.config.hub_contract == HUB).unwrap_or(false);
+            if let Some(d) = disp {
+                let failing = &o.calls[at];
+                let zero_send = failing.sender == DISPATCHER && matches!(&failing.msg, MsgRec::BankSend { coins, .. } if coins.iter().all(|x| x.1 == 0));
+                if wired && bonded > 0 && !zero_send {
+                    stats.check("c17_dispatch_failed");
+                    viol(out, "C17", "dispatch_executes_for_every_balance", ctx.idx, "dispatcher.DispatchRewards:must_execute", format!("DispatchRewards (dispatcher holds {:?}) failed at {:?}: {}", d.bal_before, failing.exec().map(|e| (e.0.to_string(), e.1.to_string())), o.err.clone().unwrap_or_default()));
+                }
             }
         }
     }
